@@ -61,8 +61,7 @@ theorem identNameOkB_sound (name : Txt) (h : identNameOkB name = true) : IdentNa
   simp only [identNameOkB, Bool.and_eq_true, Bool.not_eq_true'] at h
   obtain ⟨⟨⟨⟨⟨h1, h2⟩, h3⟩, h4⟩, h5⟩, h6⟩ := h
   refine ⟨nameShapeB_sound name h1, h2, h3, h4, ?_, ?_⟩
-  · rw [List.all_eq_true] at h5 ⊢
-    intro sw hsw; have := h5 sw hsw; rw [ciPrefixB_eq] at this; exact this
+  · exact h5
   · rw [List.all_eq_true] at h6 ⊢
     intro sw hsw; have := h6 sw hsw; rw [ciPrefixB_eq] at this; exact this
 
